@@ -8,14 +8,14 @@ import vlib
 RULE = ("resolve-level plans generated without the planner (loaderlab: response tree over a random entity universe, one root "
         "SingleFetch per subgraph, Entity/BatchEntity fetches at nested object/list positions with key and @requires-like "
         "representations, Sequence/Parallel trees by dependency level), each run fault-free and under fault sets keyed by fetch: "
-        "every single (fetch, kind) for 16 kinds and for the 7 shapes of 'the selected data path holds null / a wrong kind / nothing' (_entities: null / {} / 'x', data: {} / 'x' / 1 / []; plain and one of the variants with an errors entry / status 500 / both; _entities items of a wrong kind once the abort finding is recorded), shape x ordinary-kind pairs, plus random subsets (quick: 30 per plan; thorough: the power set of the requested "
+        "every single (fetch, kind) for 16 kinds and for the 7 shapes of 'the selected data path holds null / a wrong kind / nothing' (_entities: null / {} / 'x', data: {} / 'x' / 1 / []; plain and one of the variants with an errors entry / status 500 / both; _entities items number / string / list), shape x ordinary-kind pairs, plus random subsets (quick: 30 per plan; thorough: the power set of the requested "
         "fetches when <= 6, else 2000). A second batch (mode chain) uses entity types with @requires chains of length 3-4 and further "
         "fields requiring a chain member (the provider of z depends on the provider of y, that on the provider of x, z's not on x's; a second "
         "fetch to one subgraph at one object where needed), inputs nullable in 5 of 6 plans, and in half of the plans extra root Single "
         "fetches with DependsOnFetchIDs on an entity / batch fetch. An evaluation is one (plan, fault set) run through resolve.Resolver; it is distinct by "
         "construction and non-trivial when the faults changed the response data relative to the fault-free run.")
 
-KEYS = ["status-ignored-with-data", "taint-filters-independent-fetches", "wrong-kind-data-aborts-response"]   # taint-single-entity-fetch-ignored: repaired (00d2cc7)   # nan-accepted, entity-count-ignored, nullable-requires-null-sent: repaired in loader.go
+KEYS = ["status-ignored-with-data", "taint-filters-independent-fetches"]   # wrong-kind-data-aborts-response: repaired (eb6ed70)   # taint-single-entity-fetch-ignored: repaired (00d2cc7)   # nan-accepted, entity-count-ignored, nullable-requires-null-sent: repaired in loader.go
 
 
 def classify(case, detail):
@@ -25,9 +25,6 @@ def classify(case, detail):
     if clause in ("affected_null", "unaffected_equal") and "status-ignored-with-data" in causes:
         return "status-ignored-with-data"
     # exactly what the dependency-blind filter removes (evaluated by the driver: the data equals the reduced reference)
-    # `_entities` items / root `data` of a wrong kind: MergeValues fails and the resolve returns an error (no response)
-    if clause == "valid_response" and "wrong-kind-data-aborts-response" in causes and "ResolveGraphQLResponse returned an error" in detail:
-        return "wrong-kind-data-aborts-response"
     if clause == "taint_isolated" and "[taint-filters-independent-fetches]" in detail:
         return "taint-filters-independent-fetches"
     return None
@@ -129,11 +126,8 @@ def run(chk, extra_corpus=None):
     e2e_th = threading.Thread(target=e2e_part) if c07e is not None else None
     if e2e_th:
         e2e_th.start()
-    # the kinds that abort the resolve (`_entities` items / root `data` of a wrong kind) are injected once the finding is recorded:
-    # until then every such run would be the same VIOLATION (replay: harness/bin/c07 show -seed S -idx I -faults 1:it_num)
-    abort = " -abortkinds 1" if (any(k["key"] == "wrong-kind-data-aborts-response" for k in chk.known)
-                                  or os.environ.get("C07_ABORTKINDS") == "1") else ""   # env: to try a fix before the finding is recorded
-    chk.coverage["abort_kinds_injected"] = bool(abort)
+    # `_entities` items / root `data` of a wrong kind (they aborted the resolve before eb6ed70) are injected by default
+    abort = ""
     # the chain and taint batches (below) run beside the main batch
     nc = 60 if chk.tier == "quick" else 150
     nt_plans = 60 if chk.tier == "quick" else 400
